@@ -47,6 +47,11 @@ MUTANTS = {
     'v2_skip_first': (P + 'kd_buf_parser.py', "        self.set_thread_map(parsed_header.threadmap)\n        while True:", "        self.set_thread_map(parsed_header.threadmap)\n        reader.read(KEVENT_SIZE)\n        while True:", ['C02']),
     'log_no_table_ext': (P + 'kd_buf_parser.py', "if log_event.process and log_event.thread_identifier:", "if False:", ['C03']),
     'dyld_replace': (P + 'kd_buf_parser.py', "                if not self.dyld_modules:\n                    self.dyld_modules.update(data)\n                else:\n                    self.dyld_modules['Binaries'].extend(data['Binaries'])", "                self.dyld_modules = data", ['C03']),
+    'short_record_padded': (P + 'kd_buf_parser.py', "                buf = reader.read(KEVENT_SIZE)\n                yield from_kd_buf(buf)", "                buf = reader.read(KEVENT_SIZE).ljust(KEVENT_SIZE, b'\\x00')\n                yield from_kd_buf(buf)", ['C06']),
+    'v2_short_record_padded': (P + 'kd_buf_parser.py', "            if not buf:\n                break\n            yield from_kd_buf(buf)", "            if not buf:\n                break\n            yield from_kd_buf(buf.ljust(KEVENT_SIZE, b'\\x00'))", ['C06']),
+    'seek_no_eof_exit': (P + 'kd_buf_parser.py', "        if not next_byte:\n            raise EOFError(f'Reached the end of the stream while looking for {data!r}')\n", "", ['C06']),
+    'traces_materialised_sorted': (P + 'pykdebugparser.py', "        trace_generator = traces_parser.feed_generator(self.kevents(kdebug))\n", "        trace_generator = iter(traces_parser.feed_generator(sorted(self.kevents(kdebug), key=lambda e: e.timestamp)))\n", ['C06']),
+    'count_off_by_one': (P + '__main__.py', "        if i == count:\n            break\n        print(obj)", "        print(obj)\n        if i == count:\n            break", ['C06']),
 }
 
 
